@@ -289,7 +289,10 @@ inline void runC05(Ctx &c)
             if (idx < 1)
                 c.wantSample();
             c.event("upstream." + u.kind);
-            auto s = makeSplineDur(p);
+            bool viaPts = false;
+            auto s = makeSplineHist(c, r, p, viaPts);
+            if (viaPts)
+                p = effectiveFromPoints(p);
             const bool refOv = r.coin();
             Grads an = s->propagate(u.gC, u.gT, refOv);
             if (!c.require("C05.shape", gradsShapeOk(an, p), gkey(p, "shape")))
@@ -348,7 +351,7 @@ inline void runC05(Ctx &c)
                 // independence of earlier calls: same call again, other overload, stale output object, fresh object
                 Grads again = s->propagate(u.gC, u.gT, refOv);
                 Grads other = s->propagate(u.gC, u.gT, !refOv);
-                Grads stale = s->propagateIntoStale(u.gC, u.gT, r.range(0, 12));
+                Grads stale = s->propagateIntoStale(u.gC, u.gT, r.coin() ? -1 : r.range(0, 12));
                 Grads fresh = makeSplineDur(p)->propagate(u.gC, u.gT, refOv);
                 c.require("C05.call_history_independent", gradsBitEqual(again, an) && gradsBitEqual(other, an) && gradsBitEqual(stale, an) && gradsBitEqual(fresh, an), gkey(p, "history"));
                 // propagation must not disturb the spline itself
@@ -380,7 +383,10 @@ inline void runC06(Ctx &c)
                 c.nontrivial(hashProblem(p));
             if (idx < 1)
                 c.wantSample();
-            auto s = makeSplineDur(p);
+            bool viaPts = false;
+            auto s = makeSplineHist(c, r, p, viaPts);
+            if (viaPts)
+                p = effectiveFromPoints(p);
             MatrixXd C = s->coeffs();
             const int nc = p.ncoef(), sO = p.s();
             Grads an = s->energyGrad(false);
@@ -411,6 +417,9 @@ inline void runC06(Ctx &c)
                 s->energyGradBoundary(bs, be);
                 bool ok = gradsBitEqual(ref, an) && bitEqualMat(s->energyGradTimes(), an.times) && bitEqualMat(s->energyGradInner(), an.inner) && bitEqualMat(bs, an.start) && bitEqualMat(be, an.end);
                 c.require("C06.getters_consistent", ok, gkey(p, "getters"));
+                // reference overloads writing into caller-owned objects that hold stale content (same or other shape)
+                bool st = gradsBitEqual(s->energyGradStale(true), an) && gradsBitEqual(s->energyGradStale(false), an);
+                c.require("C06.reference_overload_ignores_stale_output_content", st, gkey(p, "getters"));
             }
             // partial derivatives against the definition, in extended precision
             {
@@ -420,6 +429,8 @@ inline void runC06(Ctx &c)
                 if (c.require("C06.partial_shape", shp, gkey(p, "shape")))
                 {
                     c.require("C06.partial_overloads_equal", bitEqualMat(pc, s->partialC(true)) && bitEqualMat(pt, s->partialT(true)), gkey(p, "getters"));
+                    c.require("C06.partial_reference_overload_ignores_stale_output_content",
+                              bitEqualMat(pc, s->partialCStale(true)) && bitEqualMat(pc, s->partialCStale(false)) && bitEqualMat(pt, s->partialTStale(true)) && bitEqualMat(pt, s->partialTStale(false)), gkey(p, "getters"));
                     double wc = 0, wt = 0;
                     for (int i = 0; i < p.N; ++i)
                     {
@@ -700,6 +711,21 @@ inline double gradsRel(const Grads &a, const Grads &b, double scale)
     w = std::max(w, relMat(a.end, b.end, scale));
     return w;
 }
+// the transformed problem is solved either on a fresh object or by re-updating a copy of the original object (same
+// segment count): a relation must hold whichever way the second spline came about
+inline std::unique_ptr<ISpline> splineForRelation(Ctx &c, Rng &r, const ISpline &orig, const Problem &q)
+{
+    if (r.coin(0.5))
+    {
+        c.event("second_spline.fresh");
+        return makeSplineDur(q);
+    }
+    auto cp = orig.clone();
+    (void)cp->trajEval(orig.startTime(), 0);
+    cp->updateDur(q.T, q.P, q.t0, q.bc);
+    c.event("second_spline.reupdated_copy");
+    return cp;
+}
 inline void runC14(Ctx &c)
 {
     const bool thorough = c.a.tier == "thorough";
@@ -747,7 +773,7 @@ inline void runC14(Ctx &c)
                 Problem q = p;
                 double shift = r.coin() ? std::ldexp(1.0, r.range(-3, 12)) * (r.coin() ? 1 : -1) : r.uni(-1e3, 1e3);
                 q.t0 = p.t0 + shift;
-                auto sq = (idx & 1) ? makeSplineDur(q) : makeSplineDur(q);
+                auto sq = splineForRelation(c, r, *s, q);
                 c.check("C14.shift.coeffs_unchanged", coeffError(q, sq->coeffs(), Cld, 1e-3), 1e-12, gkey(p, "shift"));
                 c.check("C14.shift.energy_unchanged", scaledDiff(sq->energy(), E, (double)Eabs), 1e-12, gkey(p, "shift"));
                 c.check("C14.shift.gradients_unchanged", std::max(gradsRel(sq->energyGrad(false), eg, egS), gradsRel(sq->propagate(u.gC, u.gT, false), pg, pgS)), 1e-12, gkey(p, "shift"));
@@ -799,7 +825,7 @@ inline void runC14(Ctx &c)
                 }
                 for (int i = 0; i <= p.N; ++i)
                     q.P.row(i) += w.transpose();
-                auto sq = makeSplineDur(q);
+                auto sq = splineForRelation(c, r, *s, q);
                 MatrixXd Cq = sq->coeffs();
                 // expected: c0 rows shifted, everything else equal
                 MatrixXld Cexp = Cld;
@@ -826,7 +852,7 @@ inline void runC14(Ctx &c)
                     q.bc.s(d) *= lam;
                     q.bc.e(d) *= lam;
                 }
-                auto sq = makeSplineDur(q);
+                auto sq = splineForRelation(c, r, *s, q);
                 MatrixXld Cexp = Cld * (LD)lam;
                 // powers of two: every operation is scaled exactly; arbitrary reals: rounding times the solver's amplification
                 const double tol = pow2 ? 1e-12 : 1e-8;
@@ -862,7 +888,7 @@ inline void runC14(Ctx &c)
                     q.bc.s(d) /= std::pow(mu, d);
                     q.bc.e(d) /= std::pow(mu, d);
                 }
-                auto sq = makeSplineDur(q);
+                auto sq = splineForRelation(c, r, *s, q);
                 MatrixXld Cexp = Cld;
                 for (int i = 0; i < p.N; ++i)
                     for (int k = 0; k < nc; ++k)
@@ -902,7 +928,7 @@ inline void runC14(Ctx &c)
                     q.bc.s(d) = sg * p.bc.e(d);
                     q.bc.e(d) = sg * p.bc.s(d);
                 }
-                auto sq = makeSplineDur(q);
+                auto sq = splineForRelation(c, r, *s, q);
                 // expected pieces: q_i(t) = p_{N-1-i}(T - t)
                 MatrixXld Cexp(C.rows(), C.cols());
                 for (int i = 0; i < p.N; ++i)
@@ -1062,19 +1088,41 @@ inline void runC10(Ctx &c)
                     int N = r.coin(0.7) ? walk[(wpos++) % 17] : r.range(1, 12);
                     if (!thorough && N > 12)
                         N = 12;
-                    cur = genProblem(r, od.first, od.second, N);
+                    if (have && r.coin(0.45))
+                    {
+                        // partly unchanged inputs (as in an optimisation loop): same durations, same waypoints, the very
+                        // same problem again, or the same segment count with everything new
+                        Problem old = cur;
+                        int k = r.range(0, 3);
+                        cur = genProblem(r, od.first, od.second, old.N);
+                        if (k == 0)
+                        {
+                            cur.T = old.T;
+                            cur.t0 = old.t0;
+                        }
+                        else if (k == 1)
+                        {
+                            cur.P = old.P;
+                            cur.bc = old.bc;
+                        }
+                        else if (k == 2)
+                            cur = old;
+                        c.event("op.update_partly_unchanged");
+                    }
+                    else
+                        cur = genProblem(r, od.first, od.second, N);
                     curEntry = r.range(0, 1);
                     hh = mix64(hh, hashProblem(cur) + curEntry);
                     if (curEntry == 0)
                     {
                         L->updateDur(cur.T, cur.P, cur.t0, cur.bc);
-                        trace.push_back("update_durations N=" + std::to_string(N));
+                        trace.push_back("update_durations N=" + std::to_string(cur.N));
                     }
                     else
                     {
                         curTp = cur.timePoints();
                         L->updatePts(curTp, cur.P, cur.bc);
-                        trace.push_back("update_timepoints N=" + std::to_string(N));
+                        trace.push_back("update_timepoints N=" + std::to_string(cur.N));
                     }
                     have = true;
                     c.event("op.update");
